@@ -185,6 +185,8 @@ def run_case(c):
         m.scramble_rng = random.Random(c["seed"] + "/scramble")     # cmd / wdata payload is garbage (or already the next address) while valid is low
     m.use_last = True
     m.strobe_semantics = False
+    if r.random() < 0.35:
+        m.data_ahead = r.choice([1, 3, 12])      # write data streamed ahead of the commands (fifo-mode masters only)
     state = dict(flush_final=False, t_final=None, flushes=0)
 
     def flusher():
